@@ -25,15 +25,17 @@ import (
 )
 
 const (
-	fPanic   = iota // the handler panics on this request
-	fBad            // an undecodable message
-	fEOF            // abrupt disconnect on a message boundary
-	fEOFmid         // abrupt disconnect inside a message
-	fBadBody        // a defined command whose body does not decode (an AVP declares a length beyond the message)
+	fPanic    = iota // the handler panics on this request
+	fBad             // an undecodable message
+	fEOF             // abrupt disconnect on a message boundary
+	fEOFmid          // abrupt disconnect inside a message
+	fBadBody         // a defined command whose body does not decode (an AVP declares a length beyond the message)
+	fPanicNil        // the handler panics with a nil value (children run with GODEBUG=panicnil=1: recover() then returns nil, as for modules that declare go < 1.21 like the library itself)
+	fCloseBad        // the handler closes the connection; an undecodable message is already buffered behind the request
 	nFaults
 )
 
-var fNames = []string{"handler-panic", "undecodable-message", "disconnect", "disconnect-mid-message", "undecodable-body"}
+var fNames = []string{"handler-panic", "undecodable-message", "disconnect", "disconnect-mid-message", "undecodable-body", "handler-nil-panic", "handler-close-then-undecodable"}
 
 type c15Fault struct {
 	conn, pos, kind int
@@ -61,6 +63,8 @@ func (s c15Scenario) String() string {
 }
 
 const panicMarker = 0x40000000
+const panicNilMarker = 0x20000000
+const closeMarker = 0x10000000
 
 // c15AcceptErr: the temporary accept errors rotate between a plain temporary one (EMFILE-like)
 // and one that is temporary and a time-out as well (an expired listener deadline, ETIMEDOUT)
@@ -83,6 +87,14 @@ func runC15(c *ev.Case, ctx *lib.Ctx, sc c15Scenario, lc *logCapture) {
 	hf := func(dc diam.Conn, m *diam.Message) {
 		if m.Header.HopByHopID&panicMarker != 0 {
 			panic("handler blew up")
+		}
+		if m.Header.HopByHopID&panicNilMarker != 0 {
+			var nothing interface{}
+			panic(nothing)
+		}
+		if m.Header.HopByHopID&closeMarker != 0 {
+			dc.Close()
+			return
 		}
 		a := m.Answer(2001)
 		if pl, err := m.FindAVP(9001, 0); err == nil {
@@ -161,6 +173,11 @@ func runC15(c *ev.Case, ctx *lib.Ctx, sc c15Scenario, lc *logCapture) {
 				case fEOFmid:
 					conns[i].Feed(seqMsg(uint32(p+1), 100)[:57])
 					conns[i].FeedEOF()
+					reportsOffered++
+				case fPanicNil:
+					conns[i].Feed(seqMsg(panicNilMarker|uint32(p+1), 12))
+				case fCloseBad:
+					conns[i].Feed(append(seqMsg(closeMarker|uint32(p+1), 12), peer.Msg(0x80, 8388606, 0, 1, 1)...))
 					reportsOffered++
 				}
 				break
@@ -305,7 +322,13 @@ func runC15(c *ev.Case, ctx *lib.Ctx, sc c15Scenario, lc *logCapture) {
 		return
 	}
 	logs := lc.String()[before:]
-	if wantPanic := strings.Contains(sig("")["faults"].(string), "handler-panic"); wantPanic != strings.Contains(logs, "panic serving") {
+	wantPanic := false
+	for _, f := range sc.faults {
+		if f.kind == fPanic {
+			wantPanic = true
+		}
+	}
+	if wantPanic != strings.Contains(logs, "panic serving") {
 		c.Fail(sig("panic-log"), nil, nil, "handler panic scripted=%v but the log says: %q; %s", wantPanic, logs[:min(len(logs), 300)], desc)
 		return
 	}
